@@ -45,8 +45,8 @@ SPECIAL_GLOBALS = {
 
 MODULE_ATTRS = {
     ("dt", "date"): ClsV("date"), ("dt", "datetime"): ClsV("datetime"),
-    ("numbers", "Number"): ClsV("Number"), ("numbers", "Real"): ClsV("Real"),
-    ("numbers", "Integral"): ClsV("Integral"),
+    ("numbers", "Number"): ClsV("numbers.Number"), ("numbers", "Real"): ClsV("numbers.Real"),
+    ("numbers", "Integral"): ClsV("numbers.Integral"),
 }
 
 
@@ -125,7 +125,7 @@ def isinstance_formula(I, st, x, c):
             hcls = h.cls or kinds[0]
             return hcls in vm.subtypes(name) or name == "object" or (repo_cls and I.src.is_subclass(hcls, name))
         if isinstance(x, Conc):
-            if name in ("_dt_types", "_int_types", "Number", "Real", "Integral"):
+            if name in vm.ABSTRACT:
                 return type(x.py).__name__ in vm.subtypes(name)
             pyc = getattr(_bi, name, None)
             if isinstance(pyc, type):
@@ -201,7 +201,7 @@ def h_len(I, st, fv, args, kwargs, ctx):
     out = []
     for (q, b) in I.branch(st, sized):
         if b:
-            out.append((q, int_val(I, z3.If(vm.ty(t) == vm.TAG["tuple"], z3.Length(vm.tup(t)), vm.slen(t)))))
+            out.append((q, int_val(I, vm.slen(t))))
         else:
             # objects with __len__ are outside the value model (scope); None/numbers raise
             out.append((q, Raise("TypeError")))
@@ -230,6 +230,10 @@ def h_type(I, st, fv, args, kwargs, ctx):
     t = I.term(x)
     c = z3.Const("typeof(%s)" % t, V)
     I.U.axioms.append(vm.ty(c) == vm.TAG["type"])
+    # type(x) is type  <=>  x is a (plain) class;  type(x) is date <=> exact type date, ...
+    I.U.axioms.append((c == I.U.cls_const("type")) == (vm.ty(t) == vm.TAG["type"]))
+    for nm in ("date", "datetime", "int", "bool", "float", "str", "tuple", "list", "dict"):
+        I.U.axioms.append((c == I.U.cls_const(nm)) == (vm.ty(t) == vm.TAG[nm]))
     return [(st, Sym(c))]
 
 
@@ -335,20 +339,11 @@ def h_tuple(I, st, fv, args, kwargs, ctx):
     its = I.known_items(st, x)
     if its is not None:
         return [(st, TupV(its))]
-    if isinstance(x, Ref):
-        h = st.heap[x.oid]
-        if h.kind == "list":
-            c = I.U.fresh("tuple")
-            I.U.axioms += [vm.ty(c) == vm.TAG["tuple"]]
-            st.pc.append(vm.tup(c) == h.seq)
-            return [(st, Sym(c))]
-    if isinstance(x, Sym):
-        t = x.t
-        c = I.U.fresh("tuple")
-        I.U.axioms += [vm.ty(c) == vm.TAG["tuple"]]
-        st.pc.append(vm.tup(c) == vm.tup(t))
-        st.pc.append(vm.slen(c) == z3.Length(vm.tup(t)))
-        return [(st, Sym(c))]
+    if isinstance(x, FuncV) and x.kind == "builtin" and x.data.get("name") == "$mapobj":
+        raise OutOfReach("tuple(map(...)) over a sequence of unknown length")
+    its = I.path_known_items(st, x)
+    if its is not None:
+        return [(st, TupV(its))]
     raise OutOfReach("tuple() of %r" % (x,))
 
 
@@ -367,8 +362,9 @@ def h_list(I, st, fv, args, kwargs, ctx):
             if h.ckeys is not None:
                 return [(st, I.make_list(st, [Conc(k) for k in h.ckeys]))]
             return [(st, I.alloc_list(st, h.keys))]
-    if isinstance(x, Sym):
-        return [(st, I.alloc_list(st, vm.tup(x.t)))]
+    its = I.path_known_items(st, x)
+    if its is not None:
+        return [(st, I.make_list(st, its))]
     raise OutOfReach("list() of %r" % (x,))
 
 
@@ -402,7 +398,7 @@ def h_zip(I, st, fv, args, kwargs, ctx):
 
 def h_map(I, st, fv, args, kwargs, ctx):
     f, xs = args[0], args[1]
-    its = I.known_items(st, xs)
+    its = I.path_known_items(st, xs)
     if its is not None:
         res = [(st, [])]
         for it in its:
@@ -501,6 +497,7 @@ def install(I):
     L["callable"] = h_callable
     L["len"] = h_len
     L["type"] = h_type
+    L["new:type"] = h_type
     L["hasattr"] = h_hasattr
     L["getattr"] = h_getattr
     L["setattr"] = h_setattr
@@ -517,5 +514,6 @@ def install(I):
     L["format"] = h_opaque_str
     L["inspect.isgeneratorfunction"] = h_isgeneratorfunction
     L["$binop"] = h_binop
-    from . import lib_seq
+    from . import lib_seq, lib_misc
     lib_seq.install(I)
+    lib_misc.install(I)
